@@ -174,6 +174,16 @@ def one_case(rec, rng, col, m, mech, wit):
     dup = len({k for k, _ in list(m)}) != len(m)
     feats["dup_keys"] = dup
     before = snap(m)
+    # a container that has been *used* (views taken, compared, indexed) must
+    # copy just as well as a fresh one
+    if rng.random() < 0.7:
+        with warnings.catch_warnings():
+            warnings.simplefilter("ignore")
+            list(m.keys()), list(m.values()), list(m.items()), len(m)
+            m == m, m != m, bool(m)
+            for k in list(m.keys())[:2]:
+                m[k], m.getall(k), m.get(k), k in m, m.key_index(k)
+        rec.count("original_used_before_copy")
     try:
         with warnings.catch_warnings():
             warnings.simplefilter("ignore")
@@ -204,6 +214,7 @@ def one_case(rec, rng, col, m, mech, wit):
                       f"orig={before} copy={snap(c)}")
         return
     deep = mech in DEEP
+    # the copy's own views and comparisons must show the copy, not the original
     # direction 1: mutate the copy, original must not move
     for direction in ("copy->orig", "orig->copy"):
         for rep in range(2):
@@ -218,6 +229,22 @@ def one_case(rec, rng, col, m, mech, wit):
                     "C11", mech.split("-")[0], "not-independent",
                     {**feats, "direction": direction}, {**wit, "mutations": log},
                     f"{direction}: {other_before} -> {snap(other)}")
+                return
+            views_ok = True
+            for obj in (src, other):
+                with warnings.catch_warnings():
+                    warnings.simplefilter("ignore")
+                    lst = list(obj)
+                    if list(obj.items()) != lst or \
+                            list(obj.keys()) != [k for k, _ in lst] or \
+                            list(obj.values()) != [v for _, v in lst] or \
+                            (obj == type(obj)(lst)) is not True:
+                        views_ok = False
+            if not views_ok:
+                rec.violation("C11", mech.split("-")[0],
+                              "views-of-copy-or-original-show-the-other-side",
+                              {**feats, "direction": direction},
+                              {**wit, "mutations": log}, "")
                 return
             if not all_levels_ok(other) or not all_levels_ok(src):
                 rec.violation("C11", mech.split("-")[0],
@@ -261,7 +288,8 @@ def shard(i, n, tier, seed, rec, hb):
 
 def finish_kwargs(rec, tier):
     return dict(
-        required_counters=["mutation_histories", "containers_with_nested_levels",
+        required_counters=["mutation_histories", "original_used_before_copy",
+                           "containers_with_nested_levels",
                            "containers_with_duplicate_keys"]
         + [f"copies[{m}]" for m in MECHS],
         assumptions=["shallow copies promise top-level independence only; "
